@@ -1,6 +1,7 @@
 import BfeVerif.Common.Proto
 import BfeVerif.C44.Model
 import BfeVerif.C44.NegoIO
+import BfeVerif.C44.NegoServe
 /-!
   C44 driver.  Ops (space separated fields; byte strings in hex, `-` = empty):
 
@@ -376,11 +377,150 @@ def runIs (f : List String) (impl : String) : Ans :=
     | _, _, _, _ => { model := "bad-hello", verdict := "FAIL:hs-hello-not-captured" }
   | _ => { model := "bad-result", verdict := "FAIL:unparsable-result" }
 
+/-! ### stream `kr`: ticket-key rotation through the real listener / reload path -/
+
+structure KrState where
+  curKey : Nat := 1
+  pendKey : Option Nat := none                   -- key of the configuration the pending (accepted) connection is bound to
+  client : Option (Nat × Nat × Nat) := none      -- the client's cached session: version, suite, key it was sealed under
+  out : List String := []
+  bad : Option String := none
+
+def krConn (cfgF : List String) (st : KrState) (acceptKey : Nat) (implItem : String) : KrState :=
+  match implItem.splitOn " | " with
+  | [helloStr, outcome] =>
+    match parseCase (" ".intercalate (["rch"] ++ cfgF ++ [helloStr])) with
+    | some c =>
+      let h := c.hello
+      let offered := h.ticketSupported && h.ticketPresent
+      let sess : Option Session := match st.client with
+        | some (v, su, k) => if offered && k == acceptKey then some { vers := v, suite := su, hasCerts := false } else none
+        | none => none
+      let r := readClientHello c.cfg c.rule h { ticket := sess, cache := none }
+      let (expected, client') : String × Option (Nat × Nat × Nat) :=
+        match r with
+        | .error _ => ("srv=err", if offered then none else st.client)
+        | .ok p =>
+          let kxCurves := if p.ecdheNoExt then h.curves ++ [23] else h.curves
+          let kxPick := (c.cfg.curvePreferences.find? fun x => kxCurves.contains x).getD 0
+          let kxBad := !p.resume && p.suite.has suiteECDHE && !([23, 24, 25] : List Nat).contains kxPick
+          if kxBad || p.vers < 0x0301 || (p.alpn != "" && !h.alpn.contains p.alpn) then ("srv=err", if offered then none else st.client)
+          else
+            ("srv=ok v=" ++ hex4 p.vers ++ " s=" ++ hex4 p.suite.id ++ " al=" ++ dash p.clientProto ++ " r=" ++ (if p.resume then "1" else "0"),
+             if p.resume then st.client
+             else if h.ticketSupported && !c.cfg.ticketsDisabled then some (p.vers, p.suite.id, acceptKey) else st.client)
+      -- spec: a ticket is honoured only under the key of the configuration this connection was accepted with, and the
+      -- reload changes nothing else of the policy
+      let bad :=
+        if st.bad.isSome then st.bad
+        else if outcome.startsWith "srv=ok" then
+          let resumed := field outcome "r" == some "1"
+          let legit := match st.client with | some (_, _, k) => offered && k == acceptKey | none => false
+          if resumed && !legit then some "retired-key-ticket-resumed"
+          else match (field outcome "v").bind parseHex, (field outcome "s").bind parseHex, field outcome "al" with
+            | some v, some su, some al =>
+              (match oracleOk c v su al resumed with
+               | some cls => if classIgnoredHere cls then none else some ("policy-lost-after-reload-" ++ cls)
+               | none => none)
+            | _, _, _ => some "unparsable-result"
+        else none
+      { st with client := client', out := st.out ++ [helloStr ++ " | " ++ expected], bad := bad }
+    | none => { st with out := st.out ++ ["bad-hello"] }
+  | _ => { st with out := st.out ++ ["bad-item"] }
+
+def runKr (f : List String) (impl : String) : Ans :=
+  if f.length != 14 then { model := "bad-op", verdict := "skip" } else
+  let cfgF := f.take 13
+  let items := (f.getD 13 "").splitOn ","
+  let implItems := impl.splitOn " || "
+  let step (st : KrState) (p : String × String) : KrState :=
+    let it := p.1
+    if it == "C" then krConn cfgF st st.curKey p.2
+    else if it == "A" then { st with pendKey := some st.curKey, out := st.out ++ ["."] }
+    else if it == "H" then
+      match st.pendKey with
+      | some k => { krConn cfgF st k p.2 with pendKey := none }
+      | none => { st with out := st.out ++ ["no-conn"] }
+    else if it.startsWith "K" then { st with curKey := ((it.drop 1).toString.toNat?).getD st.curKey, out := st.out ++ ["."] }
+    else { st with out := st.out ++ ["bad-item"] }
+  let fin := (items.zip (implItems ++ List.replicate items.length "")).foldl step {}
+  { model := " || ".intercalate fin.out, verdict := match fin.bad with | some b => "FAIL:" ++ b | none => "ok",
+    tags := ["kr"] ++ (if fin.out.any (fun o => (o.splitOn " r=1").length > 1) then ["kr-resumed"] else []) ++
+            (if items.contains "H" then ["kr-accept-rotate-handshake"] else []) ++
+            (if items.any (·.startsWith "K") then ["kr-rotated", "nt"] else []) }
+
+/-! ### stream `rs`: issued under SNI₁, presented under SNI₂, rule found by the production rule map -/
+
+def rsDefaultRule : Rule := { grade := gradeC, clientAuth := false, chacha20 := false, nextProtos := ["http/1.1"] }
+
+def rsCfg (cert : String) : Config :=
+  { minVersionRaw := 0, maxVersionRaw := 0, cipherSuitesRaw := none, priority := [], preferServer := false,
+    ssl3PoodleProofed := false, ticketsDisabled := false, cacheEnabled := true, nextProtos := [], clientAuth := 0,
+    curvePrefsRaw := [], hasCert := true, certEcdsa := cert == "e" }
+
+def runRs (f : List String) (impl : String) : Ans :=
+  if f.length != 14 then { model := "bad-op", verdict := "skip" } else
+  let prods : Option (List (String × Rule)) := ((f.getD 0 "").splitOn ";").mapM fun e =>
+    match e.splitOn ":" with
+    | [n, g, a, c, ps] => some (n, { grade := g, clientAuth := a == "1", chacha20 := c == "1", nextProtos := ps.splitOn "+" })
+    | _ => none
+  let smS := f.getD 1 "-"
+  let sm : Option (List (String × String)) :=
+    if smS == "-" then some [] else (smS.splitOn ",").mapM fun e => match e.splitOn "=" with | [k, v] => some (k, v) | _ => none
+  match prods, sm, mkCase (["0000", "0000", "n", "-", "00001", "-", "0", "-", f.getD 4 "r", "0", "C", "00", "-"]) ((f.drop 5).take 7),
+        (f.getD 12 "").toNat? with
+  | some ps, some sm, some c, some ncerts =>
+    let cfg := rsCfg (f.getD 4 "r")
+    let ruleOf (n : String) : Rule := ((ps.find? fun p => p.1 == n).map (·.2)).getD rsDefaultRule
+    let t : RuleTable Rule := { vip := [], sni := sm.map fun p => (p.1, ruleOf p.2), dflt := rsDefaultRule }
+    let name (s : String) : String := if s == "-" then "" else s
+    let sni1 := name (f.getD 2 "-")
+    let sni2 := name (f.getD 3 "-")
+    let viaTk := f.getD 13 "" == "tk"
+    let h1 := c.hello
+    let r1 := serve t cfg none sni1 h1 { ticket := none, cache := none }
+    match r1 with
+    | .error _ => { model := render r1 ++ " | -", verdict := "skip", tags := ["rs", "rs-first-refused"] }
+    | .ok p1 =>
+      let sess : Session := { vers := p1.vers, suite := p1.suite.id, hasCerts := ncerts != 0 }
+      let h2 : Hello := { h1 with ticketSupported := viaTk, ticketPresent := viaTk, sessionIdPresent := (!viaTk) }
+      let lk : Lookups := if viaTk then { ticket := some sess, cache := none } else { ticket := none, cache := some sess }
+      let r2 := serve t cfg none sni2 h2 lk
+      let sec := match r2 with
+        | .error a => "alert=" ++ toString (alertCode a) ++ " ms=-"
+        | .ok p2 => render (.ok p2) ++ " ms=" ++ (if p2.resume then "1" else "-")
+      -- spec: the product that governs SNI₂ (names compare case-insensitively, without trailing dots)
+      let rule2 : Rule := match sm.find? fun p => normName p.1 == normName sni2 with
+        | some p => ruleOf p.2
+        | none => rsDefaultRule
+      let second := (impl.splitOn " | ").getD 1 ""
+      let verdict :=
+        if second.startsWith "ok " && field second "r" == some "1" then
+          match (field second "v").bind parseHex, (field second "s").bind parseHex with
+          | some v, some su =>
+            let rc4 := checkCipherGrade cfg rule2.grade v
+            let suiteOk' := match lookupSuite su with
+              | some x => !(x.has suiteChacha20 && !rule2.chacha20) && !(x.has suiteRC4 && rc4 == .disable) && !(!x.has suiteRC4 && rc4 == .only)
+              | none => false
+            if v != p1.vers || su != p1.suite.id || field second "ms" != some "1" then "FAIL:resumed-params-changed"
+            else if rule2.clientAuth && ncerts == 0 then "FAIL:client-cert-skipped"
+            else if (rule2.grade == gradeA && v < versionTLS10) || (rule2.grade == gradeAPlus && v < versionTLS12) || !suiteOk' then
+              "FAIL:resumed-against-policy-of-presented-sni"
+            else "ok"
+          | _, _ => "FAIL:unparsable-result"
+        else "ok"
+      { model := render r1 ++ " | " ++ sec, verdict := verdict,
+        tags := ["rs", if viaTk then "rs-ticket" else "rs-cache"] ++ (if normName sni1 != normName sni2 then ["rs-sni-changed"] else []) ++
+                (match r2 with | .ok p2 => if p2.resume then ["rs-resumed"] else ["rs-full"] | .error _ => ["rs-alert"]) ++ ["nt"] }
+  | _, _, _, _ => { model := "bad-op", verdict := "skip" }
+
 def run (op impl : String) : Ans :=
   match op.splitOn " " with
   | ["um", hx] => runUm hx impl
   | "tk" :: f => runTk f impl
   | "res" :: f => runRes f impl
+  | "rs" :: f => runRs f impl
+  | "kr" :: f => runKr f impl
   | "is" :: f => runIs f impl
   | "rv" :: f => runRv f impl
   | "sc" :: f => runSc f impl
